@@ -9,8 +9,8 @@ import subprocess
 import time
 
 VERIF = os.path.dirname(os.path.dirname(os.path.abspath(__file__)))
-HARNESS = os.path.join(VERIF, "harness")
-TARGET = os.path.join(VERIF, "target")
+HARNESS = os.environ.get("PMHV_HARNESS_DIR", os.path.join(VERIF, "harness"))
+TARGET = os.environ.get("PMHV_TARGET_DIR", os.path.join(VERIF, "target"))
 BIN = os.path.join(TARGET, "release", "pmhv")
 
 
